@@ -565,6 +565,11 @@ size_t jbl_count(struct jbl *jbl) {
 }
 
 size_t jbl_size(struct jbl *jbl) {
+  // like jbl_as_buf(): the size is part of the header, which is written lazily (a fresh jbl_clone() reported 0, a
+  // document changed through jbl_set_*() its old size)
+  if (jbl->bn.writable && jbl->bn.dirty) {
+    binn_save_header(&jbl->bn);
+  }
   return (size_t) jbl->bn.size;
 }
 
